@@ -22,7 +22,7 @@ RULE = ('three case families. valid: a supported hint from the shared grammar wi
         'violation path raises must be a public beartype exception. junk: a hint-construction program (recursive: typing factories subscripted by junk leaves - ints, strings '
         'that do not parse or resolve, unhashables, slot wrappers, builtins, modules, nested tuples, wrong arity, special forms such as '
         'ClassVar/Final/Required/Unpack/ParamSpec/TypeVarTuple/Concatenate, deep legal nesting up to depth 400) evaluated to an object that '
-        'is then passed as a hint to @beartype (parameter and return, decoration and call), is_bearable, die_if_unbearable, TypeHint and '
+        'is then passed as a hint to @beartype (parameter, return and the return of a binary dunder method; decoration and call), is_bearable, die_if_unbearable, TypeHint and '
         'is_subhint (both sides); construction failures inside typing itself are discarded. Validity oracle on whatever escapes: a public '
         'beartype.roar.BeartypeException subclass (BeartypeDecorException while decorating, BeartypeCallException or a violation when '
         'calling an already built wrapper), warnings are BeartypeWarning subclasses (or DeprecationWarning raised by typing). '
@@ -59,6 +59,7 @@ LEAVES = {
     'tuple': tuple, 'list': list, 'dict': dict, 'type': type, 'Type': typing.Type, 'ForwardRef': typing.ForwardRef('NoSuchName2'),
     'ForwardRef bad': typing.ForwardRef('int'), 'NamedTuple': typing.NamedTuple, 'TypedDict': typing.TypedDict,
     'NewType': typing.NewType, 'cabc.Callable': cabc.Callable, 'float': float, 'complex': complex,
+    'ForwardRef module=3': typing.ForwardRef('NoSuchName3', module=3), 'ForwardRef is_class': typing.ForwardRef('int', is_class=True),
 }
 FACTORIES = {
     'list': list, 'List': typing.List, 'dict': dict, 'Dict': typing.Dict, 'tuple': tuple, 'Tuple': typing.Tuple, 'set': set,
@@ -81,7 +82,8 @@ def programs(depth):
         st.tuples(st.sampled_from(sorted(FACTORIES)), st.lists(sub, min_size=1, max_size=3)).map(lambda t: ['sub', t[0], t[1]]),
         st.lists(sub, min_size=0, max_size=3).map(lambda l: ['tuple', l]),
         st.lists(sub, min_size=2, max_size=3).map(lambda l: ['or', l]),
-        st.tuples(sub, st.sampled_from(['...', 'list-args'])).map(lambda t: ['special', t[1], t[0]]),
+        st.tuples(sub, st.sampled_from(['...', 'list-args', 'newtype', 'typevar-bound', 'typevar-constraints'])).map(
+            lambda t: ['special', t[1], t[0]]),
     )
     return st.integers(0, 3).flatmap(lambda i: leaf if i == 0 else comp)
 
@@ -105,6 +107,12 @@ def evaluate(p):
         inner = evaluate(p[2])
         if p[1] == '...':
             return tuple[inner, ...]
+        if p[1] == 'newtype':
+            return typing.NewType('VJunkNewType', inner)
+        if p[1] == 'typevar-bound':
+            return typing.TypeVar('VJunkTB', bound=inner)
+        if p[1] == 'typevar-constraints':
+            return typing.TypeVar('VJunkTC', inner, int)
         return typing.Callable[[inner], inner]
     if k == 'deep':
         h = int
@@ -145,10 +153,10 @@ def _case(draw, tier):
         v = draw(H.violating(node))
         if v is not None:
             return {'family': 'valid', 'hint': node, 'value': v[0]}
-    if draw(st.integers(0, 60)) == 0:
-        # deep-but-legal nesting (RecursionError must not leak); expensive, hence rare
+    if draw(st.integers(0, 150)) == 0:
+        # deep-but-legal nesting (RecursionError must not leak); expensive, hence rare - depth 400 is exercised by the replay corpus
         prog = ['deep', draw(st.sampled_from(['list', 'tuple', 'dict', 'Sequence', 'Optional'])),
-                draw(st.sampled_from([30, 100, 250, 400]))]
+                draw(st.sampled_from([30, 100, 100, 250]))]
         return {'family': 'junk', 'program': prog, 'obj': 'int'}
     d = draw(st.sampled_from([0, 1, 1, 2, 2, 3]))
     return {'family': 'junk', 'program': draw(programs(d)), 'obj': draw(st.sampled_from(['int', 'str', 'none', 'list']))}
@@ -241,6 +249,17 @@ def run_junk(case):
     def fr(p):
         return p
     fr.__annotations__ = {'return': hint}
+    class _Dunder:
+        def __add__(self, other):
+            return 1
+    _Dunder.__add__.__annotations__ = {'return': hint}
+
+    def deco_dunder():
+        _Dunder.__add__ = beartype(_Dunder.__dict__['__add__'])
+        return lambda o: _Dunder() + o
+    d, err = guard('decorate-dunder-return', deco_dunder, 'decor', BeartypeDecorException)
+    if err is None and d is not None:
+        guard('call-dunder-return', lambda: d(obj), 'call', BeartypeCallException)
     for name, f in (('param', fp), ('return', fr)):
         deco, err = guard('decorate-' + name, lambda: beartype(f), 'decor', BeartypeDecorException)
         if err is None and deco is not None:
